@@ -81,8 +81,7 @@ def ode15s(dae: nDAE,
     t0 = tspan[0]
     if t0 > tend:
         raise ValueError(f't0: {t0} > tend: {tend}')
-    if opt.hmax is None:
-        opt.hmax = np.abs(tend - t0)
+    hmax = np.abs(tend - t0) if opt.hmax is None else opt.hmax
     nt = 0
     t = t0
     hmin = 16 * np.spacing(t0)
@@ -129,12 +128,12 @@ def ode15s(dae: nDAE,
         else:
             wt = np.maximum(np.abs(y0), threshold)
             rh = 1.25 * linalg.norm(yp0 / wt, np.inf) / (opt.rtol) ** (1 / 2)
-        absh = np.minimum(opt.hmax, tend - t0)
+        absh = np.minimum(hmax, tend - t0)
         if absh * rh > 1:
             absh = 1 / rh
         absh = np.maximum(absh, hmin)
     else:
-        absh = np.minimum(opt.hmax, np.maximum(hmin, opt.hinit))
+        absh = np.minimum(hmax, np.maximum(hmin, opt.hinit))
 
     dt = absh
 
@@ -181,7 +180,7 @@ def ode15s(dae: nDAE,
     at_hmin = False
     while not done:
         hmin = 16 * np.spacing(t)
-        absh = np.minimum(opt.hmax, np.maximum(hmin, absh))
+        absh = np.minimum(hmax, np.maximum(hmin, absh))
         if absh == hmin:
             if at_hmin:
                 absh = abshlast
